@@ -930,7 +930,7 @@ def check_independent(cls, p, v, how, scenario):
         ra = canon(a.style.as_dict())
         before = canon(b.style.as_dict())
         a.style.update(label="changed")
-        if not same(canon(b.style.as_dict()), before) or not same(tget(ra, p), canon(v)):
+        if not same(canon(b.style.as_dict()), before) or not same(leaf_value(a.style, p), canon(v)):
             return "independent/shared-constructor-dict", f"{cls}: two objects built from one style dict share state"
     elif scenario == "constructor-kwarg-next-to-dict":
         # a second object built from the same dict plus a style_ keyword must not change the first
@@ -1161,7 +1161,8 @@ def run(ctx):
         # coqchk has no VM: it would re-evaluate the reflexive schema-wide proofs (minutes under vm_compute)
         # with lazy conversion and not finish; it re-checks the inductive part (and every model definition)
         ctx.coqchk("MV.Proofs.StyleGen")
-    ctx.refuted = [t for t in ctx.theorems if t.endswith("_refuted")]
+    ctx.refuted = [t for t in ctx.theorems if t.endswith("_refuted")
+                   and not (t == "precedence_show_label_refuted" and ok and "label" in show_keys())]
     ctx.partial = [t for t in ctx.theorems if t.endswith("_partial")]
 
     classes = public_classes() if ok else []
